@@ -234,7 +234,7 @@ theorem inPart_touching (k : Key) (ps : List Posting) : inPart k.1 (touching k p
       have : (k.1 = p.destination) ↔ (p.dstKey = k) := by
         constructor
         · intro e; exact Prod.ext e.symm ha
-        · intro e; simp [← e, Posting.dstKey, Posting.srcKey]
+        · intro e; simp [← e, Posting.dstKey]
       by_cases hd : p.dstKey = k
       · simp [hd, this.mpr hd]
       · have : ¬ k.1 = p.destination := fun e => hd (this.mp e)
@@ -257,7 +257,7 @@ theorem outPart_touching (k : Key) (ps : List Posting) : outPart k.1 (touching k
       have : (k.1 = p.source) ↔ (p.srcKey = k) := by
         constructor
         · intro e; exact Prod.ext e.symm ha
-        · intro e; simp [← e, Posting.dstKey, Posting.srcKey]
+        · intro e; simp [← e, Posting.srcKey]
       by_cases hd : p.srcKey = k
       · simp [hd, this.mpr hd]
       · have : ¬ k.1 = p.source := fun e => hd (this.mp e)
